@@ -22,6 +22,7 @@ func vxTemporalFacts(n int) (*factstore.TemporalStore, ast.Atom, []vxSpan) {
 	store := factstore.NewTemporalStore()
 	atom := ast.NewAtom("p", ast.Number(1))
 	raw := vxParam("RAW", 0) == 1
+	overlapping := vxParam("RAW", 0) == 2 // arbitrary (nested, overlapping, equal) intervals, no Coalesce: diamond operators only
 	var in []vxSpan
 	for i := 0; i < n; i++ {
 		s, e := vxInt64(fmt.Sprintf("s%d", i)), vxInt64(fmt.Sprintf("e%d", i))
@@ -41,7 +42,9 @@ func vxTemporalFacts(n int) (*factstore.TemporalStore, ast.Atom, []vxSpan) {
 	if raw {
 		return store, atom, in
 	}
-	store.Coalesce(atom.Predicate)
+	if !overlapping {
+		store.Coalesce(atom.Predicate)
+	}
 	var stored []vxSpan
 	store.GetAllFacts(ast.NewQuery(atom.Predicate), func(tf factstore.TemporalFact) error {
 		stored = append(stored, vxSpan{tf.Interval.Start.Timestamp, tf.Interval.End.Timestamp})
@@ -58,6 +61,10 @@ func vxDur(d int64) ast.TemporalBound {
 func VxC14Operators() {
 	n := vxParam("N", 2)
 	op := vxChoose("operator", 4)
+	if vxParam("RAW", 0) == 2 {
+		// a store that is not coalesced: "holds at some instant of the window" is still well defined
+		vxAssume(op == 0 || op == 2)
+	}
 	store, atom, stored := vxTemporalFacts(n)
 	T := vxInt64("T")
 	d1, d2 := vxInt64("d1"), vxInt64("d2")
